@@ -64,6 +64,12 @@
         decision table's prepared RR octet for octet (algorithm, time signed, fudge 300, MAC, original
         ID, error, other data — the server time iff BADTIME), with the MAC of (f).
 
+  (h) **`C10_decoded_table`** — (g), `C10_decoded_authenticated_answer` and `C10_decoded_tsig_does_not_fit`
+      in one theorem, for one and the same TSIG record `t`, message-without-TSIG `mw` and reader `r'`
+      (`ServerContent.TsigRun`, Proofs/ServerSignedTable.lean): per row of the decision table — rejected
+      and the reply fits; authenticated, no-data verdict; authenticated, answered by a loaded zone; reply
+      does not fit — the decoded TSIG record of the response (or its absence).
+
   `C10_full` (below) is the end-to-end statement "the executable C10 audit finds nothing wrong with
   the response the model produces, for every configuration, request and clock".  Proved: (a)–(g).
   Not proved (gap of `C10_partial`), precisely:
@@ -77,8 +83,10 @@
       as RDATA and the MAC of (f); it rests on `ServerContent.signed_answer_final` (the final writer of
       the answering phase is `Good`: the induction over `handle_non_axfr_query` that ties the ghost
       log to the writer's content layout);
-  (3) when the reply's TSIG does not fit (UDP): the response is TC / NOERROR without TSIG — (e), state
-      level only.
+  (3) (closed) when the reply's TSIG does not fit (UDP): `C10_decoded_tsig_does_not_fit` — every decoding
+      of the response has TC set, RCODE 0, no answer / authority data, the OPT record iff reached and no
+      record of type 250 (`ServerContent.signed_nofit_final`: the final writer is the scan state with
+      RCODE 0 and TC set, no TSIG pending, `Good`).
 -/
 import QV.Properties.C11
 import QV.Proofs.ServerTsig
@@ -87,6 +95,8 @@ import QV.Proofs.ServerSigned
 import QV.Proofs.ServerSignedDecode
 import QV.Proofs.ServerSignedOwner
 import QV.Proofs.ServerAnswerDecode
+import QV.Proofs.ServerSignedNoFit
+import QV.Proofs.ServerSignedTable
 
 namespace QV.C10
 open QV QV.Server QV.Writer QV.Tsig QV.ServerTsig
@@ -623,6 +633,158 @@ theorem C10_decoded_authenticated_answer (cfg : Cfg) (hcfg : ServerSafety.CfgWF 
   obtain ⟨rest, o, g1, g2, g3, g4, g5, g6, _, _⟩ := tsig_of_good macFn F _ hG _ hts b mac hf d hd
   refine ⟨rest, o, g1, g2, g3, g4, g5, ?_⟩
   rw [g6, hmac']; rfl
+
+open QV.ServerScan in
+/-- **(e) decoded: the reply TSIG does not fit** (RFC 8945 §5.3; `set_tsig_or_truncate`, the repair of
+    D03).  Whether the request was rejected by the decision table and the prescribed reply TSIG does
+    not fit, or it was authenticated and the response TSIG does not fit (`ServerContent.NoFit`): every
+    decoding of the response has TC set, RCODE 0 (NOERROR), AA clear, empty answer and authority
+    sections, and an additional section that is exactly the OPT record iff the scan reached one — in
+    particular no record of type 250: the response carries no TSIG. -/
+theorem C10_decoded_tsig_does_not_fit (cfg : Cfg) (tr : Transport) (now bufLen : Nat) (req : Bytes)
+    (hbuf : minBuf tr cfg.payload ≤ bufLen) (hpay : 512 ≤ cfg.payload) (hp16 : cfg.payload ≤ 65535)
+    (hreq : req.size ≤ Rdata.USIZE_MAX)
+    (hr : (Spec.Server.specScanWith (catKind cfg) cfg.payload req).respond = true)
+    (hv : (Spec.Server.specScanWith (catKind cfg) cfg.payload req).verdict = .tsigReached) :
+    ∃ (t : ReadTsigRr) (mw : Bytes) (r' : Reader.Reader), r'.octets = req ∧ r'.cursor ≤ req.size ∧
+      ∀ nowT kn, TimeSigned.tryFromUnix now = some nowT → WName.parse t.keyName = some (kn, []) →
+        ServerContent.NoFit cfg nowT t mw kn (preTsigState cfg tr bufLen req) →
+        ∀ b, handleMessage cfg tr now bufLen req = .ok (some b) →
+          ∀ d, Spec.specDecodeMsg b = some d →
+            d.tc = true ∧ d.rcode = 0 ∧ d.aa = false ∧ d.an = [] ∧ d.ns = [] ∧
+            d.ar.length = (if (Spec.Server.specScanWith (catKind cfg) cfg.payload req).edns then 1 else 0) ∧
+            (∀ o ∈ d.ar, o.ty = 41) ∧ ∀ o ∈ d.ar, o.ty ≠ 250 := by
+  obtain ⟨t, mw, r', h1, h2, h3⟩ := ServerContent.signed_nofit_final cfg tr now bufLen req hbuf hpay hp16 hreq hr hv
+  refine ⟨t, mw, r', h1, h2, fun nowT kn hnow hkn hnf b hb d hd => ?_⟩
+  obtain ⟨F, mac, hf, hG, hts, he, hh⟩ := h3 nowT kn hnow hkn hnf b hb
+  obtain ⟨r1, r2, r3, r4, r5, r6, r7⟩ :=
+    ServerContent.decoded_nofit F _ (qBody_norecs _) hG hts hh b mac hf d hd
+  refine ⟨r1, r2, r3, r4, r5, ?_, r7, fun o ho h => by rw [r7 o ho] at h; cases h⟩
+  rw [r6]
+  cases hed : (Spec.Server.specScanWith (catKind cfg) cfg.payload req).edns <;> rw [hed] at he <;>
+    cases hw : F.edns <;> rw [hw] at he <;> simp at he ⊢
+
+open QV.ServerScan in
+/-- **the decision table, decoded — one theorem.**  For a request whose scan reaches a well-formed TSIG
+    record there are that record `t`, the message without it `mw` and the reader `r'` after it such
+    that all rows hold *for these*:
+    1. the request is rejected by the table (`tsigStopReply`: unknown algorithm / key ⇒ NOTAUTH + BADKEY
+       unsigned; bad MAC size ⇒ FORMERR + BADSIG unsigned; wrong MAC ⇒ NOTAUTH + BADSIG unsigned; time
+       outside the window ⇒ NOTAUTH + BADTIME signed) and the reply TSIG fits: no answer / authority
+       data; the additional section is the OPT (iff reached) then, last, the TSIG record of the table's
+       prepared RR (`C10_decoded_error`);
+    2. the request is authenticated and the verdict is a no-data verdict: the same shape with the
+       response TSIG (error 0, time = now), MAC over exactly the octets before it
+       (`C10_decoded_authenticated_nodata`);
+    3. the request is authenticated and a loaded zone answers: the TSIG record is the last element of
+       the additional section, MAC over exactly the octets before it (`C10_decoded_authenticated_answer`);
+    4. the reply TSIG does not fit: TC, NOERROR, no data, OPT iff reached, no TSIG record
+       (`C10_decoded_tsig_does_not_fit`). -/
+theorem C10_decoded_table (cfg : Cfg) (hcfg : ServerSafety.CfgWF cfg) (tr : Transport) (now bufLen : Nat) (req : Bytes)
+    (hbuf : minBuf tr cfg.payload ≤ bufLen) (hpay : 512 ≤ cfg.payload) (hp16 : cfg.payload ≤ 65535)
+    (hreq : req.size ≤ Rdata.USIZE_MAX)
+    (hr : (Spec.Server.specScanWith (catKind cfg) cfg.payload req).respond = true)
+    (hv : (Spec.Server.specScanWith (catKind cfg) cfg.payload req).verdict = .tsigReached) :
+    ∃ (t : ReadTsigRr) (mw : Bytes) (r' : Reader.Reader), r'.octets = req ∧ r'.cursor ≤ req.size ∧
+      (∀ nowT kn an rc mode rr, TimeSigned.tryFromUnix now = some nowT →
+        WName.parse t.keyName = some (kn, []) → WName.parse t.algorithm = some (an, []) →
+        tsigStopReply realHmac cfg.keys nowT t mw.toList kn an = some (rc, mode, rr) →
+        TsigFits (preTsigState cfg tr bufLen req) mode rr →
+        ∀ b, handleMessage cfg tr now bufLen req = .ok (some b) →
+          ∀ d, Spec.specDecodeMsg b = some d →
+            d.an = [] ∧ d.ns = [] ∧
+            ∃ rest o, d.ar = rest ++ [o] ∧
+              rest.length = (if (Spec.Server.specScanWith (catKind cfg) cfg.payload req).edns then 1 else 0) ∧
+              o.ty = 250 ∧ o.cls = 255 ∧ o.rawTtl = 0 ∧
+              o.owner.map lowerU8 = rr.keyName.wire.map lowerU8 ∧
+              o.rdata = tsigRdata rr (tsigAlgName mode)
+                ((finishMac macFn ⟨mode, reservedLen mode rr, rr⟩
+                  (signedPrefix req cfg.payload (Spec.Server.specScanWith (catKind cfg) cfg.payload req) rc)).getD [])) ∧
+      (∀ r'' S, tsigAfter cfg now t mw r' (preTsigState cfg tr bufLen req) = (.ok (some r''), S) →
+      ∀ v, (v = Spec.Server.Verdict.formErr ∨ v = .notImp ∨ v = .refused ∨ v = .servFailZone) →
+        endVerdict (catKind cfg) req.size (Spec.Server.specScanWith (catKind cfg) cfg.payload req).question
+          r'.cursor ((req.getD 2 0).toNat / 8 % 16) = v →
+      ∀ b, handleMessage cfg tr now bufLen req = .ok (some b) →
+        ∃ nowT alg key kn, TimeSigned.tryFromUnix now = some nowT ∧
+          Algorithm.fromName t.algorithm = some alg ∧ findKey cfg.keys t.keyName alg = some key ∧
+          WName.parse t.keyName = some (kn, []) ∧ verifyRequest realHmac t mw.toList alg key.secret nowT = .ok () ∧
+          ∀ d, Spec.specDecodeMsg b = some d →
+            d.an = [] ∧ d.ns = [] ∧
+            ∃ rest o, d.ar = rest ++ [o] ∧
+              rest.length = (if (Spec.Server.specScanWith (catKind cfg) cfg.payload req).edns then 1 else 0) ∧
+              o.ty = 250 ∧ o.cls = 255 ∧ o.rawTtl = 0 ∧
+              o.owner.map lowerU8 = kn.wire.map lowerU8 ∧
+              o.rdata = tsigRdata (prepOf kn t nowT 0) (algName (toWriterAlg alg))
+                (macFn (respTsig alg key kn t nowT)
+                  (signedPrefix req cfg.payload (Spec.Server.specScanWith (catKind cfg) cfg.payload req)
+                    (Spec.Server.verdictRcode v).1))) ∧
+      (∀ r'' S, tsigAfter cfg now t mw r' (preTsigState cfg tr bufLen req) = (.ok (some r''), S) →
+        endVerdict (catKind cfg) req.size (Spec.Server.specScanWith (catKind cfg) cfg.payload req).question
+          r'.cursor ((req.getD 2 0).toNat / 8 % 16) = .answer →
+      ∀ b, handleMessage cfg tr now bufLen req = .ok (some b) →
+        ∃ nowT alg key kn, TimeSigned.tryFromUnix now = some nowT ∧
+          Algorithm.fromName t.algorithm = some alg ∧ findKey cfg.keys t.keyName alg = some key ∧
+          WName.parse t.keyName = some (kn, []) ∧ verifyRequest realHmac t mw.toList alg key.secret nowT = .ok () ∧
+          ∃ pre oe, b.toList = pre ++ tsigRecordOctets oe (respTsig alg key kn t nowT)
+              (some (macFn (respTsig alg key kn t nowT) pre)) ∧
+            ∀ d, Spec.specDecodeMsg b = some d →
+              ∃ rest o, d.ar = rest ++ [o] ∧ o.ty = 250 ∧ o.cls = 255 ∧ o.rawTtl = 0 ∧
+                o.owner.map lowerU8 = kn.wire.map lowerU8 ∧
+                o.rdata = tsigRdata (prepOf kn t nowT 0) (algName (toWriterAlg alg))
+                  (macFn (respTsig alg key kn t nowT) pre)) ∧
+      (∀ nowT kn, TimeSigned.tryFromUnix now = some nowT → WName.parse t.keyName = some (kn, []) →
+        ServerContent.NoFit cfg nowT t mw kn (preTsigState cfg tr bufLen req) →
+        ∀ b, handleMessage cfg tr now bufLen req = .ok (some b) →
+          ∀ d, Spec.specDecodeMsg b = some d →
+            d.tc = true ∧ d.rcode = 0 ∧ d.aa = false ∧ d.an = [] ∧ d.ns = [] ∧
+            d.ar.length = (if (Spec.Server.specScanWith (catKind cfg) cfg.payload req).edns then 1 else 0) ∧
+            (∀ o ∈ d.ar, o.ty = 41) ∧ ∀ o ∈ d.ar, o.ty ≠ 250) := by
+  obtain ⟨t, mw, r', question, hrun⟩ := ServerContent.tsigRun_exists cfg tr now bufLen req hbuf hpay hreq hr hv
+  refine ⟨t, mw, r', hrun.1, hrun.2.1, ?_, ?_, ?_, ?_⟩
+  · have h3 := ServerContent.signed_error_final_of_run cfg tr now bufLen req hbuf hpay hp16 hr t mw r' question hrun
+    intro nowT kn an rc mode rr hnow hkn han hrep hfit b hb d hd
+    obtain ⟨F, mac, hf, hG, hts, he, hmac⟩ := h3 nowT kn an rc mode rr hnow hkn han hrep hfit b hb
+    obtain ⟨hq1, hq2, hq3⟩ := qBody_norecs (Spec.Server.specScanWith (catKind cfg) cfg.payload req).question
+    obtain ⟨_, _, c3, c4⟩ := opt_of_good macFn F _ hG (by rw [hq3]; simp) b mac hf d hd
+    rw [hq1] at c3
+    rw [hq2] at c4
+    obtain ⟨rest, o, g1, g2, g3, g4, g5, g6, _, g8⟩ := tsig_of_good macFn F _ hG _ hts b mac hf d hd
+    refine ⟨List.length_eq_zero_iff.mp c3, List.length_eq_zero_iff.mp c4, rest, o, g1, ?_, g2, g3, g4, g5, ?_⟩
+    · rw [g8, hq3, he]; cases (Spec.Server.specScanWith (catKind cfg) cfg.payload req).edns <;> rfl
+    · rw [g6, hmac]
+  · have h3 := ServerContent.signed_nodata_final_of_run cfg tr now bufLen req hbuf hpay hp16 hr t mw r' question hrun
+    intro r'' S hT v hvv hev b hb
+    obtain ⟨nowT, alg, key, kn, F, mac, e1, e2, e3, e4, e5, hf, hG, hts, he, hmac⟩ := h3 r'' S hT v hvv hev b hb
+    refine ⟨nowT, alg, key, kn, e1, e2, e3, e4, e5, fun d hd => ?_⟩
+    obtain ⟨hq1, hq2, hq3⟩ := qBody_norecs (Spec.Server.specScanWith (catKind cfg) cfg.payload req).question
+    obtain ⟨_, _, c3, c4⟩ := opt_of_good macFn F _ hG (by rw [hq3]; simp) b mac hf d hd
+    rw [hq1] at c3
+    rw [hq2] at c4
+    obtain ⟨rest, o, g1, g2, g3, g4, g5, g6, _, g8⟩ := tsig_of_good macFn F _ hG _ hts b mac hf d hd
+    refine ⟨List.length_eq_zero_iff.mp c3, List.length_eq_zero_iff.mp c4, rest, o, g1, ?_, g2, g3, g4, g5, ?_⟩
+    · rw [g8, hq3, he]; cases (Spec.Server.specScanWith (catKind cfg) cfg.payload req).edns <;> rfl
+    · rw [g6, hmac]; rfl
+  · have h3 := ServerContent.signed_answer_final_of_run cfg hcfg tr now bufLen req hbuf hpay hp16 hr t mw r' question hrun
+    intro r'' S hT hev b hb
+    obtain ⟨nowT, alg, key, kn, F, mac, bd, e1, e2, e3, e4, e5, hf, hG, _, _, hts, _⟩ := h3 r'' S hT hev b hb
+    refine ⟨nowT, alg, key, kn, e1, e2, e3, e4, e5, ?_⟩
+    obtain ⟨_, hmac, oe, sT, _, _, _, _, hbl⟩ := finish_octets_tsig macFn F hG.1.inv.hdr _ hts b mac hf
+    have hmac' : mac = some (macFn (respTsig alg key kn t nowT) (finishPrefix F ++ optEnc F.edns)) := by
+      rw [hmac]; rfl
+    rw [hmac'] at hbl
+    refine ⟨finishPrefix F ++ optEnc F.edns, oe, hbl, fun d hd => ?_⟩
+    obtain ⟨rest, o, g1, g2, g3, g4, g5, g6, _, _⟩ := tsig_of_good macFn F _ hG _ hts b mac hf d hd
+    refine ⟨rest, o, g1, g2, g3, g4, g5, ?_⟩
+    rw [g6, hmac']; rfl
+  · have h3 := ServerContent.signed_nofit_final_of_run cfg tr now bufLen req hbuf hpay hp16 hr t mw r' question hrun
+    intro nowT kn hnow hkn hnf b hb d hd
+    obtain ⟨F, mac, hf, hG, hts, he, hh⟩ := h3 nowT kn hnow hkn hnf b hb
+    obtain ⟨r1, r2, r3, r4, r5, r6, r7⟩ :=
+      ServerContent.decoded_nofit F _ (qBody_norecs _) hG hts hh b mac hf d hd
+    refine ⟨r1, r2, r3, r4, r5, ?_, r7, fun o ho h => by rw [r7 o ho] at h; cases h⟩
+    rw [r6]
+    cases hed : (Spec.Server.specScanWith (catKind cfg) cfg.payload req).edns <;> rw [hed] at he <;>
+      cases hw : F.edns <;> rw [hw] at he <;> simp at he ⊢
 
 open QV.ServerScan in
 /-- **every signed response — answers from loaded zones included.**  With `w1` the writer that
